@@ -151,6 +151,8 @@ type Req struct {
 	Tag     string
 	// FailWriteAfter > 0 makes the ResponseWriter fail after that many body bytes.
 	FailWriteAfter int
+	// OnWrite is called at the start of every Write of the ResponseWriter (slow connection).
+	OnWrite func()
 }
 
 // Do executes the request in the calling goroutine, recovering panics.
@@ -199,6 +201,7 @@ func (e *Env) Do(rq Req) *Call {
 	r = r.WithContext(sim.WithTag(r.Context(), tag))
 	c := &Call{Tag: tag, Method: rq.Method, Path: rq.Path, Query: rq.Query, Host: rq.Host, Body: rq.Body, Hdr: h, Rec: reply.NewRecorder()}
 	c.Rec.FailAfter = rq.FailWriteAfter
+	c.Rec.OnWrite = rq.OnWrite
 	c.T0 = time.Now()
 	func() {
 		defer func() {
